@@ -88,9 +88,43 @@ def explore(res, rng, n, exhaustive=None):
     cyc.config_stream(res, ['rainflow'], dec, digits_choices=(8, 8, 8, 2))
     quiet_matrix(res, rng, max(20, n // 50))
     cyc.micro_stream(res, ['rainflow'], rng, max(30, n // 25), pred)
+    callers_array(res, rng, 12)
     cyc.extreme_scale_stream(res, ['rainflow'], rng, max(12, n // 60))
     cyc.narrow_dtype_stream(res, ['rainflow'], rng, max(10, n // 80))
     res.samples += [{'history': h, 'scale_2^-s': s} for h, s in cases[len(corpus()):len(corpus()) + 3]]
+
+
+def callers_array(res, rng, k):
+    """the history handed over as a float64 array stays the caller's: the matrix function (which digitises) must not write into it, and the
+    rainflow count of the same array afterwards is the count of the history (a second matrix at a finer resolution likewise)"""
+    import numpy as np
+    core.import_impl()
+    from ffpack import lcc, lsm
+    for _ in range(k):
+        n = rng.choice([5, 7, 10])
+        vals = [round(rng.uniform(-5, 5), 2) for _ in range(n)]
+        if len(set(vals)) < 3:
+            continue
+        arr = np.array(vals, dtype=float)
+        res.evaluations += 1
+        res.stat('matrix_then_count_on_the_same_float64_array')
+        case = {'history': vals, 'resolutions': [1.0, 0.25]}
+        try:
+            want_seq = lcc.astmRainflowCounting(list(vals), aggregate=False)
+            want_m2 = lsm.astmRainflowCountingMatrix(list(vals), 0.25)
+            lsm.astmRainflowCountingMatrix(arr, 1.0)
+            untouched = bool(np.array_equal(arr, np.array(vals, dtype=float)))
+            got_seq = lcc.astmRainflowCounting(arr, aggregate=False)
+            got_m2 = lsm.astmRainflowCountingMatrix(arr, 0.25)
+        except Exception as e:  # noqa
+            res.failures.append({'signature': f'C01:callers-array:raised:{vals}', 'clause': 'valid call on a float64 array raised ' + repr(e)[:80],
+                                 'api': 'astmRainflowCountingMatrix / astmRainflowCounting', 'input': case})
+            continue
+        if not untouched or repr(got_seq) != repr(want_seq) or repr(got_m2) != repr(want_m2):
+            res.failures.append({'signature': f'C01:callers-array:{vals}', 'clause': ('the float64 array of the caller was modified by astmRainflowCountingMatrix' if not untouched else
+                                                                                      'counting the array after a matrix call differs from counting the history'),
+                                 'api': 'astmRainflowCountingMatrix / astmRainflowCounting', 'input': case,
+                                 'impl_output': {'array_after': [float(v) for v in arr][:8], 'cycles': repr(got_seq)[:160], 'cycles_of_the_history': repr(want_seq)[:160]}})
 
 
 def malformed(res):
